@@ -89,7 +89,8 @@ func (l *linkChecker) value(v *ast.Value, t *ast.Type, where, ctx string) {
 		l.variable(v, where, ctx)
 		return
 	}
-	if l.isCustomScalar(t) {
+	if l.isCustomScalar(t) && (t.Elem == nil || v.Kind != ast.ListValue) {
+		// (a list literal given for a list of custom scalars is a list: its items are the custom-scalar literals)
 		l.variablesInside(v, where)
 		return
 	}
